@@ -468,7 +468,33 @@ fn payload_of(p: &Primitive) -> Option<u64> {
 /// canonical description of what was created: one item per created object, keyed by the source object it
 /// is a copy of, kids translated back to source numbers. `sort_kids(old)`: compare as multiset (typed
 /// values are re-serialised field by field).
-fn canon_objects(objs: &[(u64, Option<u64>, Vec<u64>)], sort_kids: &dyn Fn(u64) -> bool) -> String {
+fn fnv8(b: &[u8]) -> String {
+    let mut h: u64 = 0xcbf29ce484222325;
+    for x in b { h ^= *x as u64; h = h.wrapping_mul(0x100000001b3); }
+    format!("{:08x}", h as u32)
+}
+
+/// payload digest of a copy as it is in the new document: stream data (raw, as stored) and the string /S
+fn content_digest<R: Resolve>(p: &Primitive, r: &R) -> String {
+    let (info, data) = match p {
+        Primitive::Stream(s) => (Some(&s.info), s.raw_data(r).ok().map(|d| fnv8(&d)).or(Some("unreadable".into()))),
+        Primitive::Dictionary(d) => (Some(d), None),
+        _ => (None, None),
+    };
+    let st = info.and_then(|d| d.get("S")).and_then(|x| x.as_string().ok()).map(|x| fnv8(x.as_bytes()));
+    format!("{}.{}", data.unwrap_or("-".into()), st.unwrap_or("-".into()))
+}
+
+/// the digest the copy of generated node `id` must have, from what the generator wrote (plaintext)
+fn expected_digest(kind: &str, id: u64) -> String {
+    match kind {
+        "Dict" => format!("-.{}", fnv8(&node_string_bytes(id))),
+        "Stm" | "Form" => format!("{}.{}", fnv8(&node_data(id)), fnv8(&node_string_bytes(id))),
+        _ => "-.-".to_string(),
+    }
+}
+
+fn canon_objects(objs: &[(u64, Option<u64>, Vec<u64>)], sort_kids: &dyn Fn(u64) -> bool, digests: &BTreeMap<u64, String>) -> String {
     let back: BTreeMap<u64, Option<u64>> = objs.iter().map(|(n, o, _)| (*n, *o)).collect();
     let mut items: Vec<String> = objs
         .iter()
@@ -484,7 +510,7 @@ fn canon_objects(objs: &[(u64, Option<u64>, Vec<u64>)], sort_kids: &dyn Fn(u64) 
             match old {
                 Some(o) => {
                     if sort_kids(*o) { ks.sort(); }
-                    format!("{}[{}]", o, ks.join(","))
+                    format!("{}[{}]#{}", o, ks.join(","), digests.get(new).cloned().unwrap_or_default())
                 }
                 None => format!("?nopayload{}[{}]", new, ks.join(",")),
             }
@@ -588,7 +614,8 @@ fn exec_clone(case: &Value) -> String {
         })
         .collect();
     let typed = |o: u64| matches!(ty(o).as_str(), "Res" | "Form");
-    format!("{}|{}", if rs.is_empty() { "-".to_string() } else { rs.join(",") }, canon_objects(&objs, &typed))
+    let digests: BTreeMap<u64, String> = created.iter().filter_map(|r| res.resolve(*r).ok().map(|p| (r.id, content_digest(&p, &res)))).collect();
+    format!("{}|{}", if rs.is_empty() { "-".to_string() } else { rs.join(",") }, canon_objects(&objs, &typed, &digests))
 }
 
 fn parse_edges(s: &str) -> Vec<(char, u64)> {
@@ -599,7 +626,12 @@ fn parse_edges(s: &str) -> Vec<(char, u64)> {
 }
 
 /// the model's answer in the same canonical form
-fn canon_model_clone(resp: &str, roots: &[(char, u64)], typed: &dyn Fn(u64) -> bool) -> String {
+fn model_digests(objs: &[(u64, Option<u64>, Vec<u64>)], kind_of: &dyn Fn(u64) -> String) -> BTreeMap<u64, String> {
+    objs.iter().filter_map(|(n, o, _)| o.map(|o| (*n, expected_digest(&kind_of(o), o)))).collect()
+}
+
+fn canon_model_clone(resp: &str, roots: &[(char, u64)], kind_of: &dyn Fn(u64) -> String) -> String {
+    let typed = &|o: u64| matches!(kind_of(o).as_str(), "Res" | "Form");
     let parts: Vec<&str> = resp.split('|').collect();
     if parts.len() != 3 {
         return format!("model:{}", resp);
@@ -615,7 +647,7 @@ fn canon_model_clone(resp: &str, roots: &[(char, u64)], typed: &dyn Fn(u64) -> b
         }).collect()
     };
     // the real run stops at the first panic; the model has none after the fixes
-    format!("{}|{}", if rs.is_empty() { "-".to_string() } else { rs.join(",") }, canon_objects(&objs, typed))
+    format!("{}|{}", if rs.is_empty() { "-".to_string() } else { rs.join(",") }, canon_objects(&objs, typed, &model_digests(&objs, kind_of)))
 }
 
 // =====================================================================================================
@@ -781,8 +813,8 @@ fn run_clone_cases(driver: &Driver, st: &mut Stream, cases: &[CloneCase]) {
             None => { st.count("ran=in-process"); exec_clone(&c.case_json()) }
         };
         let g = &c.g;
-        let typed = |o: u64| g.get(&o).map(|n| matches!(n.ty, NT::Res | NT::Form)).unwrap_or(false);
-        let model = canon_model_clone(&resp[i], &c.roots, &typed);
+        let kind_of = |o: u64| g.get(&o).map(|n| ty_name(n.ty).to_string()).unwrap_or_default();
+        let model = canon_model_clone(&resp[i], &c.roots, &kind_of);
         let oc = model.split('|').next().unwrap_or("").to_string();
         st.count(&format!("outcome={}", if oc.contains("err") { "some-err" } else if oc == "-" { "no-roots" } else { "all-ok" }));
         st.count(if has_cycle(g) { "graph=cyclic" } else { "graph=acyclic" });
@@ -1295,7 +1327,8 @@ fn exec_page(case: &Value) -> String {
     }).collect();
     let typed = |o: u64| matches!(ty(o).as_str(), "Res" | "Form");
     let clobber = if created.iter().any(|r| r.id < pre) { " !copy-took-a-used-number" } else { "" };
-    format!("{} |{}{}", page_strs.join(" "), canon_objects(&objs, &typed), clobber)
+    let digests: BTreeMap<u64, String> = created.iter().filter_map(|r| res.resolve(*r).ok().map(|p| (r.id, content_digest(&p, &res)))).collect();
+    format!("{} |{}{}", page_strs.join(" "), canon_objects(&objs, &typed, &digests), clobber)
 }
 
 /// case = {"kind":"frompage","doc":hex,"pages":[..]} → per page `ok/<entries>/<boxes>` | `err`
@@ -1335,7 +1368,8 @@ fn canon_model_frompage(resp: &str) -> String {
 }
 
 /// the model's `c20.tpage` answer in the same canonical form
-fn canon_model_page(resp: &str, typed: &dyn Fn(u64) -> bool) -> String {
+fn canon_model_page(resp: &str, kind_of: &dyn Fn(u64) -> String) -> String {
+    let typed = &|o: u64| matches!(kind_of(o).as_str(), "Res" | "Form");
     let parts: Vec<&str> = resp.split('|').collect();
     if parts.len() != 3 { return format!("model:{}", resp); }
     let objs = model_objects(parts[2]);
@@ -1351,7 +1385,7 @@ fn canon_model_page(resp: &str, typed: &dyn Fn(u64) -> bool) -> String {
         entries.sort();
         format!("ok/{}/{}/{}", entries.join(","), trs(f[2]), f[3])
     }).collect();
-    format!("{} |{}", page_strs.join(" "), canon_objects(&objs, typed))
+    format!("{} |{}", page_strs.join(" "), canon_objects(&objs, typed, &model_digests(&objs, kind_of)))
 }
 
 fn random_res_list(rng: &mut Rng, g: &Graph, all_kinds: bool) -> Vec<ResSpec> {
@@ -1549,8 +1583,8 @@ fn run_page_docs(driver: &Driver, st: &mut Stream, sf: &mut Stream, docs: &[(PDo
     for i in 0..cases.len() {
         let imp = match risky_map.remove(&i) { Some(a) => a, None => exec_page(&cases[i]) };
         let g = &docs[i].1;
-        let typed = |o: u64| g.get(&o).map(|n| matches!(n.ty, NT::Res | NT::Form)).unwrap_or(false);
-        let model = canon_model_page(&resp[i], &typed);
+        let kind_of = |o: u64| g.get(&o).map(|n| ty_name(n.ty).to_string()).unwrap_or_default();
+        let model = canon_model_page(&resp[i], &kind_of);
         st.count(if model.contains("err") { "outcome=some-err" } else { "outcome=all-ok" });
         if model != imp {
             st.case(&format!("{} # {}", reqs[i], cases[i]), &model, &imp, model.contains(':'));
@@ -1681,8 +1715,8 @@ fn page_streams(driver: &Driver, seed: u64, n: u64) -> (Stream, Stream) {
     for i in 0..cases.len() {
         let imp = match risky_map.remove(&i) { Some(a) => a, None => exec_page(&cases[i]) };
         let g = &graphs[i];
-        let typed = |o: u64| g.get(&o).map(|n| matches!(n.ty, NT::Res | NT::Form)).unwrap_or(false);
-        let model = canon_model_page(&resp[i], &typed);
+        let kind_of = |o: u64| g.get(&o).map(|n| ty_name(n.ty).to_string()).unwrap_or_default();
+        let model = canon_model_page(&resp[i], &kind_of);
         st.count(if model.contains("err") { "outcome=some-err" } else { "outcome=all-ok" });
         if model != imp {
             st.case(&format!("{} # {}", reqs[i], cases[i]), &model, &imp, model.contains(':'));
@@ -2789,8 +2823,8 @@ fn replay_correspondence(driver: &Driver, stream: &str, text: &str) -> Stream {
     let resp = driver.ask(&[req.to_string()]);
     let imp = match run_in_children(&[case.clone()], 20).pop() { Some(Ok(v)) => v.as_str().unwrap_or("bad-child-answer").to_string(), Some(Err(e)) => e, None => "not-run".into() };
     let types = &case["types"];
-    let typed = |o: u64| matches!(types[o.to_string()].as_str().unwrap_or(""), "Res" | "Form");
-    let model = if case["kind"] == "page" { canon_model_page(&resp[0], &typed) } else if case["kind"] == "frompage" { canon_model_frompage(&resp[0]) } else { canon_model_clone(&resp[0], &parse_edges(case["roots"].as_str().unwrap_or("-")), &typed) };
+    let kind_of = |o: u64| types[o.to_string()].as_str().unwrap_or("").to_string();
+    let model = if case["kind"] == "page" { canon_model_page(&resp[0], &kind_of) } else if case["kind"] == "frompage" { canon_model_frompage(&resp[0]) } else { canon_model_clone(&resp[0], &parse_edges(case["roots"].as_str().unwrap_or("-")), &kind_of) };
     st.case(text, &model, &imp, true);
     st
 }
